@@ -57,4 +57,15 @@ LEVEL = {
              "(independent random weights per quantity; per-voice Gaussians taken from each voice's own trees).",
         note="Trusted: as C19; tree selection itself is C04's subject — here each voice's own get_parameter is the input.",
     ),
+    "C05": dict(
+        text="Theorems (any ordered field, unbounded sizes): frames take the Gaussian of the state their duration assigns; boundary distances are the voiced "
+             "run lengths and a dynamic window is dropped exactly when its span touches an unvoiced frame or the utterance edge; fill puts NODATA exactly on "
+             "unvoiced frames; the banded LDL^T factorisation + forward/backward substitution, as coded, returns c with A c = r for the stored symmetric band "
+             "matrix for every length and band width when no pivot vanishes; normal equations with non-negative precisions give the likelihood maximiser. "
+             "Partial: that calcWuwWum assembles exactly W'U^-1 W and W'U^-1 mu is not yet a theorem — it is decided on every run by the oracle, which "
+             "builds the normal-equation residual from the definition over absolute frames (not from the banded code) on the implementation's output; the "
+             "model is bit-identical to the implementation on all executed cases.",
+        note="Trusted: Lean kernel; axioms ⊆ {propext, Classical.choice, Quot.sound}; model tied by differential testing (1e-9 relative, bit-identical in "
+             "practice); exact-arithmetic semantics; band assembly tested, not proved.",
+    ),
 }
